@@ -42,6 +42,7 @@ func (s *hostile) Plan(w *World) {
 	s.sid6 = &dhcpv6.DUIDLL{HWType: iana.HWTypeEthernet, LinkLayerAddr: mac}
 	lease := filepath.Join(w.Dir, "h-leases.txt")
 	lease6 := filepath.Join(w.Dir, "h-leases6.txt")
+	w.Sim.FSRegisterDir(w.Dir)
 	w.Sim.FSRegisterPath(lease)
 	w.Sim.FSRegisterPath(lease6)
 	w.Sim.FSCreate(lease, []byte("00:00:00:00:00:01 10.7.0.1\n02:00:00:00:00:02 10.7.0.2\n"))
